@@ -34,12 +34,13 @@ func (p *Proc) Dead() bool { return p.Killed || p.Exited }
 // A Task is a simulated thread: a real goroutine that only runs while it holds
 // the scheduler's token.
 type Task struct {
-	ID    int
-	Proc  *Proc
-	Name  string
-	Label string // label of the operation the task is about to perform
-	Steps int
-	Done  bool
+	ID        int
+	Proc      *Proc
+	Name      string
+	Label     string // label of the operation the task is about to perform
+	LastLabel string // label of the operation performed in the task's latest step
+	Steps     int
+	Done      bool
 	// Panic is the value recovered from the task's function, if it panicked.
 	Panic      any
 	PanicStack string
@@ -123,6 +124,7 @@ type Sim struct {
 
 	// File-system shim state (fs.go).
 	FsCalls   int
+	tmpSeq    int
 	FaultFn   func(c *FsCall) error
 	ShortFn   func(c *FsCall, n int) int
 	CallLog   []*FsCall
@@ -331,6 +333,7 @@ func (s *Sim) RunTask(t *Task) {
 	t.Steps++
 	s.logStep(t)
 	t.cond = nil
+	t.LastLabel = t.Label
 	s.cur = t
 	s.last = t
 	t.wake <- struct{}{}
